@@ -31,14 +31,16 @@ VARIABLES i,       \* index of the next event
           cur,     \* Begin event of the case being validated (plus the spec's shape / option schema)
           mode,    \* "" | "std" | "ec" | "eol" | "both"
           k,       \* number of Loc events seen in the current mode
-          std,     \* the locations of the std mode
+          s0,      \* index of the Mode("std") event: the k-th std location is TraceLog[s0 + k]
+          nstd,    \* number of std locations
           ptr,     \* eol / both: index of the next std location to be matched
           fails,   \* names of the demands this case broke so far
           first    \* the first event that broke one
-vars == <<i, cur, mode, k, std, ptr, fails, first>>
+vars == <<i, cur, mode, k, s0, nstd, ptr, fails, first>>
+Std(j) == TraceLog[s0 + j]
 
 Idle == [id |-> "", sh |-> Leaf, ex |-> {}, cu |-> {}, widths |-> <<>>, ncom |-> 0]
-TInit == i = 1 /\ cur = Idle /\ mode = "" /\ k = 0 /\ std = <<>> /\ ptr = 1 /\ fails = {} /\ first = <<>>
+TInit == i = 1 /\ cur = Idle /\ mode = "" /\ k = 0 /\ s0 = 0 /\ nstd = 0 /\ ptr = 1 /\ fails = {} /\ first = <<>>
 
 Ev == TraceLog[i]
 ToSet(s) == {s[j] : j \in DOMAIN s}
@@ -65,9 +67,9 @@ SameLoc(s, e) == s.p = e.p /\ s.s = e.s /\ s.l = e.l /\ s.t = e.t /\ s.d = e.d
 SamePlace(s, e) == s.p = e.p /\ s.s = e.s
 
 ModeEndProblems ==
-  CASE mode = "ec"   -> IF k < Len(std) THEN {"ec_lacks_standard_location"} ELSE {}
-    [] mode = "eol"  -> IF ptr <= Len(std) THEN {"eol_lacks_standard_location"} ELSE {}
-    [] mode = "both" -> IF ptr <= Len(std) THEN {"both_lacks_standard_location"} ELSE {}
+  CASE mode = "ec"   -> IF k < nstd THEN {"ec_lacks_standard_location"} ELSE {}
+    [] mode = "eol"  -> IF ptr <= nstd THEN {"eol_lacks_standard_location"} ELSE {}
+    [] mode = "both" -> IF ptr <= nstd THEN {"both_lacks_standard_location"} ELSE {}
     [] OTHER -> {}
 
 TBegin ==
@@ -79,13 +81,14 @@ TBegin ==
      IN /\ (mode # "" => Verdict(fails \cup {"truncated_trace"}, first))
         /\ cur' = [id |-> Ev.id, sh |-> sh, ex |-> Exts(fset), cu |-> Custom(fset), widths |-> Ev.widths, ncom |-> Ev.ncom]
         /\ fails' = f /\ first' = IF f = {} THEN <<>> ELSE <<i, "", [e |-> "Begin", id |-> Ev.id]>>
-  /\ mode' = "begun" /\ k' = 0 /\ std' = <<>> /\ ptr' = 1
+  /\ mode' = "begun" /\ k' = 0 /\ s0' = 0 /\ nstd' = 0 /\ ptr' = 1
 
 TMode ==
   /\ Ev.e = "Mode"
   /\ Note(ModeEndProblems \cup (IF Ev.m \in {"std", "ec", "eol", "both"} /\ (Ev.m = "std" <=> mode = "begun") THEN {} ELSE {"harness_mode_order"}))
   /\ mode' = Ev.m /\ k' = 0 /\ ptr' = 1
-  /\ UNCHANGED <<cur, std>>
+  /\ s0' = IF Ev.m = "std" THEN i ELSE s0
+  /\ UNCHANGED <<cur, nstd>>
 
 TLoc ==
   /\ Ev.e = "Loc"
@@ -93,35 +96,35 @@ TLoc ==
          a  == PathProblems(e.p, cur.sh, cur.ex, cur.cu)
          b  == SpanProblems(e.s, cur.widths)
          c  == CommentProblems(e)
-         matches == ptr <= Len(std) /\ (IF mode = "eol" THEN SameLoc(std[ptr], e)
-                                        ELSE SamePlace(std[ptr], e) /\ CommentsKept(std[ptr], e))
+         matches == ptr <= nstd /\ (IF mode = "eol" THEN SameLoc(Std(ptr), e)
+                                        ELSE SamePlace(Std(ptr), e) /\ CommentsKept(Std(ptr), e))
          d  == CASE mode = "ec" ->
-                      IF k + 1 > Len(std) THEN {"ec_extra_location"}
-                      ELSE (IF std[k + 1].p = e.p THEN {} ELSE {"ec_path_differs"})
-                           \cup (IF std[k + 1].s = e.s THEN {} ELSE {"ec_span_differs"})
-                           \cup (IF CommentsKept(std[k + 1], e) THEN {} ELSE {"ec_comment_lost_or_changed"})
+                      IF k + 1 > nstd THEN {"ec_extra_location"}
+                      ELSE (IF Std(k + 1).p = e.p THEN {} ELSE {"ec_path_differs"})
+                           \cup (IF Std(k + 1).s = e.s THEN {} ELSE {"ec_span_differs"})
+                           \cup (IF CommentsKept(Std(k + 1), e) THEN {} ELSE {"ec_comment_lost_or_changed"})
                 [] mode \in {"eol", "both"} ->
                       IF matches \/ UnderOptions(e.p, cur.ex, cur.cu) THEN {}
                       ELSE {mode \o "_adds_location_outside_options"}
                 [] OTHER -> {}
      IN /\ Note(a \cup b \cup c \cup d)
         /\ ptr' = IF mode \in {"eol", "both"} /\ matches THEN ptr + 1 ELSE ptr
-        /\ std' = IF mode = "std" THEN Append(std, [p |-> e.p, s |-> e.s, l |-> e.l, t |-> e.t, d |-> e.d]) ELSE std
+        /\ nstd' = IF mode = "std" THEN nstd + 1 ELSE nstd
   /\ k' = k + 1
-  /\ UNCHANGED <<cur, mode>>
+  /\ UNCHANGED <<cur, mode, s0>>
 
 (* the specification says the case is a valid workspace: it must compile, and nothing may panic *)
 TFail ==
   /\ Ev.e \in {"Fail", "Panic"}
   /\ Note({IF Ev.e = "Fail" THEN "valid_case_does_not_compile" ELSE "panic"})
-  /\ UNCHANGED <<cur, mode, k, std, ptr>>
+  /\ UNCHANGED <<cur, mode, k, s0, nstd, ptr>>
 
 TEnd ==
   /\ Ev.e = "End"
   /\ LET f == ModeEndProblems \cup (IF mode = "both" \/ "valid_case_does_not_compile" \in fails \/ "panic" \in fails
                                       THEN {} ELSE {"harness_modes_missing"})
      IN Verdict(fails \cup f, IF first = <<>> /\ f # {} THEN <<i, mode, Ev>> ELSE first)
-  /\ mode' = "" /\ fails' = {} /\ first' = <<>> /\ k' = 0 /\ ptr' = 1 /\ std' = <<>>
+  /\ mode' = "" /\ fails' = {} /\ first' = <<>> /\ k' = 0 /\ ptr' = 1 /\ s0' = 0 /\ nstd' = 0
   /\ UNCHANGED cur
 
 TNext == /\ i <= Len(TraceLog) /\ i' = i + 1
